@@ -164,8 +164,9 @@ CHECKS.update({
             "technique": "TLC model check of the decoder-selection machine + full transition replay + TLC judging of recorded histories"},
     "C13": {"text": "Protocols: implementation-shaped data_received is model-checked against the contract (2 readers x <=2 messages per call x 3 calls x "
                     "both variants); every first call of that space (+ representative second calls) is replayed with scripted readers; real readers in 8 "
-                    "candidate lists on clean/corrupted/mixed streams are recorded through proxies and each call is judged by TLC (selection, exact queue "
-                    "delta, nothing before selection, end-to-end payloads on clean streams).",
+                    "candidate lists on clean/corrupted/mixed streams are recorded through proxies (anonymous, or one recording subclass per library reader "
+                    "class so that the reader kind stays visible; a fixed HDLC/P1 history of protocol instances per process) and each call is judged by TLC "
+                    "(selection, exact queue delta, nothing before selection, end-to-end payloads / message count on clean streams).",
             "design_ref": "§6-C13", "note": "payload identity by content, message identity by object",
             "technique": "TLC model check + generated-behaviour replay + TLC judging of recorded data_received histories"},
     "C14": {"text": "Every exception out of read(), is_valid, payload, as_bytes, message_type or data_received() is recorded as an event the contract has no "
@@ -182,7 +183,8 @@ CHECKS.update({
             "technique": "TLC action property for termination + exhaustive small-scope replay + sandboxed mutation runs judged by TLC"},
     "C20": {"text": "OBIS: the specification renders value groups in both syntaxes; MC_Obis proves the renderings injective on the group space (design-level "
                     "losslessness); TLC-rendered strings for all 16 presence patterns x boundary values are parsed by the code; random groups, round "
-                    "trips, ==/hash/==str/C.D.E over all pairs of a pool and malformed strings <=6 are judged by TLC.",
+                    "trips, ==/hash/==str (also after printing/hashing the object)/C.D.E over all pairs of a pool and malformed strings <=6 are judged by TLC; "
+                    "the registry tables and the register catalogue ride along at DRIFT level.",
             "design_ref": "§6-C20", "note": "group values sampled beyond boundaries; malformed strings containing digit.digit are not bound by the statement",
             "technique": "TLA+ rendering spec, TLC injectivity model, TLC judging of recorded operations"},
 })
